@@ -105,6 +105,9 @@ func OracleC01(run *common.Run, id string, res *Result) int {
 		fail(sig, fmt.Sprintf("copy %s->%s mode=%s root=%d returned nil but reachable nodes %v are not in the destination (d0=%v graph=%v)",
 			c.Src, c.Dst, c.Mode, res.Root2, missing, c.D0, g.Describe()))
 	}
+	if len(res.ServedBad) > 0 {
+		fail("pushed-bytes-differ", fmt.Sprintf("the destination accepted bytes for nodes %v that are not the source's", res.ServedBad))
+	}
 	if len(bad) > 0 {
 		fail("bytes-differ", fmt.Sprintf("nodes %v are present with different bytes", bad))
 	}
